@@ -34,8 +34,9 @@ CHECKS = {
         'pipelines are checked finite at generic and singular states (zero '
         'pose/velocity, axis-aligned rotations, resting contact, float32) and '
         'equal to finite differences away from switching, also at near-zero '
-        'poses and zero velocity (known finding K4: damped gradient within '
-        '4.5e-4 rad of a zero second stack angle).',
+        'poses and zero velocity (known findings K4: damped gradient within '
+        '4.5e-4 rad of a zero second stack angle; K5: positional dead zone at '
+        'a state exactly at rest).',
         'Finite differences of the real loss are the reference; kinks between '
         'stencil points are detected and counted.',
         'DESIGN.md §2 C03'),
